@@ -1888,7 +1888,11 @@ pub fn dwarf_case(inp: &Input, version: u16, spanning: bool, variant: &str) -> O
                 }
             }
         }
-        fmap.push(json!({"fi": f.idx, "fo": fo, "imported": f.imported, "map": m}));
+        // how many operators of the input survive elision (decided from the input alone: reachable and not a nop): every one
+        // of them has to have an image, whatever the recorded transform says
+        let live = absmod::liveness(&f.ops);
+        let survivors = f.ops.iter().zip(live.iter()).filter(|(o, l)| **l && o.o != "Nop").count();
+        fmap.push(json!({"fi": f.idx, "fo": fo, "imported": f.imported, "map": m, "survivors": survivors}));
     }
     Some(json!({"id": id, "source": src, "outcome": "ok", "version": version, "spanning": spanning, "variant": variant, "read_error": read_err,
         "out_valid": absmod::validate(&em.bytes).is_ok(),
